@@ -21,7 +21,7 @@ func c11SymUser(name string) *User {
 	if vr.Choose(name+"_rules", 2) == 1 {
 		u.IncludedCategories = []string{"read", "fast"}
 		u.ExcludedCommands = []string{"flushall"}
-		u.IncludedReadKeys = []string{vr.Tok(name + "_rk"), "cache:*"}
+		u.IncludedReadKeys = []string{verifValid(vr.Tok(name + "_rk")), "cache:*"}
 		u.IncludedWriteKeys = []string{"app:*"}
 		u.ExcludedPubSubChannels = []string{"private"}
 	}
